@@ -101,6 +101,31 @@ def run(ctx):
         ctx.tie_broken("extracted decoder model crashed", err)
         return
 
+    # ---- step 2b: a variant may hold a descriptor although the requested type names none (a corrupted inner
+    # signature); validate_raw cannot know the number of descriptors, so "validate ok, decoders refuse" is allowed by
+    # the property exactly when the encoded value holds a descriptor index that is not below the message's count
+    # (C03_agree_param_fds has that hypothesis). Decide it by decoding with an unbounded descriptor count (model).
+    dyn_fd = set()
+    sus = [ci for ci, (kind, ty, t, bo, off, nf, b, exp, explen) in enumerate(cases)
+           if wg.count_leaves(t, "h") == 0 and "v" in wg.erased(t)
+           and split_res(impl[3 * ci])[0] == "ok" and split_res(impl[3 * ci + 1])[0] == "err"]
+    if sus:
+        sl = []
+        for ci in sus:
+            f = lines[3 * ci + 1].split(" ")
+            f[3] = "1000000"
+            sl.append(" ".join(f))
+        ok, sus_out, err = vlib.par_run_lines(drv, [], sl)
+        if not ok:
+            ctx.tie_broken("extracted decoder model crashed", err)
+            return
+        for ci, o in zip(sus, sus_out):
+            st, n, toks = split_res(o)
+            tl = toks.split(" ") if toks else []
+            if st == "ok" and any(a == "h" and c.isdigit() and int(c) >= cases[ci][5] for a, c in zip(tl, tl[1:])):
+                dyn_fd.add(ci)
+        ctx.count("variant_holds_descriptor_not_in_message", len(dyn_fd))
+
     # ---- step 3: for every value the MODEL decodes (wire order, duplicates kept) ask the specification what its
     # encoding is; the implementation's values are maps, so they are compared with the canonical form of the model's
     se_lines, se_index = [], {}
@@ -144,7 +169,7 @@ def run(ctx):
                 why = "%s did not return a value or an error (%s)" % (name, st)
         st_mp, n_mp, v_mp = split_res(up_m)
         st_mt, n_mt, v_mt = split_res(ut_m)
-        has_fd = wg.count_leaves(t, "h") > 0
+        has_fd = wg.count_leaves(t, "h") > 0 or ci in dyn_fd
         witness_missing = False
         if why is None:
             # soundness: whatever is accepted is the specification's encoding of the returned value. The witness for
